@@ -79,6 +79,10 @@ def pick(rng, pal, p_default=0.25):
 def text_comp(rng, tag, pal, lines=None, p=0.6):
     n = lines or rng.choice([1, 2, 3])
     kw = {"text": [f"{tag}{k}" for k in range(n)]}
+    if rng.random() < 0.2:
+        # an entry may itself hold a line feed: still ONE entry as far as per-entry attributes go
+        k = rng.randrange(n)
+        kw["text"][k] += "\nmore"
     if rng.random() < p:
         kw["text_color"] = [pick(rng, pal) for _ in range(n)] if rng.random() < 0.6 else pick(rng, pal)
     if rng.random() < p * 0.6:
